@@ -49,6 +49,14 @@ class ClassSpec:
             c = c.base
         return None
 
+    def attr(self, iface, prop):
+        c = self
+        while c:
+            if (iface, prop) in c.prop_attrs:
+                return c.prop_attrs[(iface, prop)]
+            c = c.base
+        raise KeyError((iface, prop))
+
     def iface(self, name):
         for d in self.all_ifaces():
             if d.name == name:
